@@ -295,7 +295,8 @@ static inline byte_array bytes_from_hex(const char *str)
 static inline byte_array bytes_from_data(const unsigned char *data, size_t len)
 {
     byte_array result(len);
-    ::memcpy(result.data(), data, len);
+    if (len)
+        ::memcpy(result.data(), data, len);
     return result;
 }
 
@@ -407,7 +408,8 @@ static inline byte_array bytes_from_hex(const String &str)
 static inline byte_array bytes_from_data(const unsigned char *data, size_t len)
 {
     byte_array result(len);
-    ::memcpy(result.data(), data, len);
+    if (len)
+        ::memcpy(result.data(), data, len);
     return result;
 }
 
